@@ -5,6 +5,7 @@ CONSTANTS
   MaxUrl = 3
   ReuseOnLookup = FALSE
   FabricatedNorm = FALSE
+  RejectCollision = TRUE
   EmptyParam = FALSE
   WildHostCheck = TRUE
   KF_Shadow = TRUE
@@ -12,5 +13,5 @@ CONSTANTS
   NChunks = 64
   EmitPrefix = "p_"
 SPECIFICATION Spec
-INVARIANTS Accepted OrderIndependent
+INVARIANTS Accepted OrderIndependent OneReading
 CHECK_DEADLOCK FALSE
